@@ -4,6 +4,7 @@ Model: DTML/Sort.lean.
 -/
 import DTML.Sort
 import DTML.Render
+import DTML.GenRender
 set_option linter.unusedVariables false
 namespace DTML.Props.C13
 open DTML.Sort Std
@@ -417,5 +418,10 @@ example : SKey.le .smallest (.int 1) = true ∧ SKey.le (.int 1) (.int 2) = true
     SKey.le (.int 2) (.int 1) = false := by decide
 
 end Interp
+
+/-- **`reverse` is `InClass.reverse_sequence` of the source** (regenerated on every run: a copy of the sequence, reversed;
+an in-place reversal of the caller's list would not translate to this function) -/
+theorem gen_reverse_sequence_is_model (xs : List Render.Val) :
+    GenRender.reverseSequenceGen xs = Render.applyReverse true xs := rfl
 
 end DTML.Props.C13
